@@ -225,10 +225,10 @@ theorem processResponse_id_hashable (P : Proto) (hP : P ≠ .v1) (p : J) (v : It
         rw [hl] at hm
         simp only at hm
         split at hm
+        · cases hm
         · injection hm with hm; subst hm
           rename_i hc
-          cases r <;> simp [J.isNumber, J.isStr, J.isNone] at hc <;> rfl
-        · cases hm
+          cases r <;> simp [J.isNumber, J.isStr, J.isNone, J.isBool] at hc <;> rfl
     | _ => simp at hm
 
 end Aiorpcx.C05
